@@ -5,6 +5,7 @@
 #include "search_hashed.hh"
 #include "search_trie.hh"
 #include "read_arpa.hh"
+#include "../util/file.hh"
 #include "../util/have.hh"
 #include "../util/murmur_hash.hh"
 
@@ -72,7 +73,13 @@ template <class Search, class VocabularyT> GenericModel<Search, VocabularyT>::Ge
     Search::UpdateConfigFromBinary(backing_, parameters.counts, VocabularyT::Size(parameters.counts[0], new_config), new_config);
     UTIL_THROW_IF(new_config.enumerate_vocab && !parameters.fixed.has_vocabulary, FormatLoadException, "The decoder requested all the vocabulary strings, but this binary file does not have them.  You may need to rebuild the binary file with an updated version of build_binary.");
 
-    SetupMemory(backing_.LoadBinary(Size(parameters.counts, new_config)), parameters.counts, new_config);
+    void *memory_base = backing_.LoadBinary(Size(parameters.counts, new_config));
+    if (!parameters.fixed.has_vocabulary) {
+      // Nothing follows the tables, so the file ends exactly there.  Otherwise the counts in the header do not describe this file (e.g. its header was only partly written).
+      const uint64_t file_size = util::SizeFile(fd_shallow);
+      UTIL_THROW_IF(file_size != util::kBadSize && file_size != backing_.VocabStringReadingOffset(), FormatLoadException, "Binary file has size " << file_size << " but without vocabulary strings the headers say it should be exactly " << backing_.VocabStringReadingOffset());
+    }
+    SetupMemory(memory_base, parameters.counts, new_config);
     vocab_.LoadedBinary(parameters.fixed.has_vocabulary, fd_shallow, new_config.enumerate_vocab, backing_.VocabStringReadingOffset());
   } else {
     ComplainAboutARPA(init_config, kModelType);
